@@ -38,7 +38,7 @@ VALID = {
     'overflow': OVERFLOWS, 'rounding': ROUNDINGS, 'shifting': ['expand', 'trunc', 'keep'],
     'op_method': ['raw', 'repr'], 'op_input_size': ['same', 'best'], 'op_sizing': SIZINGS,
     'const_op_sizing': SIZINGS, 'array_output_type': ['fxp'], 'array_op_method': ['raw', 'repr'],
-    'dtype_notation': ['fxp', 'Q'], 'max_error': [1e-6, 2.0 ** -20], 'n_word_max': [64, 48, 32],
+    'dtype_notation': ['fxp', 'Q'], 'max_error': [1e-6, 2.0 ** -20], 'n_word_max': [64, 48, 32, 16, 8],
 }
 
 FAULT_KINDS = ('F1', 'F2', 'F3', 'F4', 'F5', 'F6', 'F8')
@@ -1413,6 +1413,7 @@ class Gen(object):
             add(1, self.g_probe_shift, 'derive_bits')
             if prop == 'C20':
                 add(2, lambda: self.g_shallow(('flatten', 'fxp_like')), 'derive_copy')
+                add(2, self.g_sort_inplace, 'mutate_index')
             if prop == 'C02':
                 add(4, self.g_shallow)
                 add(3, self.g_big_store)
@@ -1469,6 +1470,7 @@ class Gen(object):
             add(4, self.g_setitem_from)
             add(2, self.g_getitem)       # views (rows, columns, stepped and reversed slices) as sources
             add(3, lambda: self.g_config_set(['overflow', 'rounding']))
+            add(1, lambda: self.g_config_set(['n_word_max', 'max_error', 'op_sizing', 'dtype_notation']))
             add(2, self.g_call)
             add(1, self.g_big_store)     # sources that went through the Python-integer store path
             add(1, self.g_probe_bigstore_then_convert)
